@@ -14,6 +14,11 @@
 (* whatever was reported before: lines max(l-2,1) .. min(l+1,n), nothing   *)
 (* when the file cannot be read, is empty, or ends more than two lines     *)
 (* before l.  ReadOnce: a readable file is read at most once per reporter. *)
+(* Line 2 of file "a" is longer than the display limit: a diagnostic on it *)
+(* carries a column class (head / mid / tail) that selects the truncation  *)
+(* window; TruncByOwnColumn: the window shown is the one of the message's  *)
+(* own column, whatever was rendered before (deviation TruncCache: the     *)
+(* truncated form is cached per (file, line)).                             *)
 (* L2: the cache.  Deviation PrefixCache: only the lines up to the end of  *)
 (* the requested window are cached, and the hit test is off by one.        *)
 (***************************************************************************)
@@ -21,9 +26,11 @@ EXTENDS Integers, Sequences, FiniteSets, TLC, Json
 
 CONSTANTS MaxLen, MaxReports, Deviations, Emit
 
-VARIABLES len, rd, cache, reads, hist
+VARIABLES len, rd, cache, reads, hist, tcache
 
-vars == <<len, rd, cache, reads, hist>>
+vars == <<len, rd, cache, reads, hist, tcache>>
+
+Cols(f, l) == IF f = "a" /\ l = 2 THEN {"head", "mid", "tail"} ELSE {"head"}
 
 F == {"a", "b"}
 Lines == 1..(MaxLen + 2)
@@ -37,27 +44,32 @@ Init == /\ \E n \in 0..MaxLen, bReadable \in BOOLEAN :
         /\ cache = [f \in F |-> -1]          \* -1: no entry
         /\ reads = [f \in F |-> 0]
         /\ hist = <<>>
+        /\ tcache = "none"     \* the column class of the first rendering of the long line
 
 \* the window computed from n available lines
 Win(l, n) == IF n = 0 \/ l - 2 > n THEN <<0, 0>> ELSE <<Max(l - 2, 1), Min(l + 1, n)>>
 Window(f, l) == IF ~rd[f] THEN <<0, 0>> ELSE Win(l, len[f])
 
-Report(f, l) ==
+Report(f, l, c) ==
   LET prefix == "PrefixCache" \in Deviations
       hit == IF prefix THEN cache[f] # -1 /\ l <= cache[f]      \* should be l + 1 <= cache[f]
              ELSE cache[f] # -1
       avail == IF hit THEN cache[f] ELSE IF rd[f] THEN len[f] ELSE 0
       w == IF ~hit /\ ~rd[f] THEN <<0, 0>> ELSE Win(l, avail)
+      long == f = "a" /\ w[1] # 0 /\ w[1] <= 2 /\ 2 <= w[2]      \* the long line is among the lines shown (as the diagnostic's line or as context)
+      tr == IF "TruncCache" \in Deviations /\ long /\ tcache # "none" THEN tcache ELSE c
   IN /\ reads' = IF hit THEN reads ELSE [reads EXCEPT ![f] = @ + 1]
      /\ cache' = IF hit \/ ~rd[f] THEN cache
                  ELSE [cache EXCEPT ![f] = IF prefix THEN Min(l + 1, len[f]) ELSE len[f]]
-     /\ hist' = Append(hist, [f |-> f, l |-> l, lo |-> w[1], hi |-> w[2]])
+     /\ hist' = Append(hist, [f |-> f, l |-> l, c |-> c, lo |-> w[1], hi |-> w[2], trunc |-> tr])
+     /\ tcache' = IF long /\ tcache = "none" THEN c ELSE tcache
      /\ UNCHANGED <<len, rd>>
 
-Next == Len(hist) < MaxReports /\ \E f \in F, l \in Lines : Report(f, l)
+Next == Len(hist) < MaxReports /\ \E f \in F, l \in Lines : \E c \in Cols(f, l) : Report(f, l, c)
 Spec == Init /\ [][Next]_vars
 
 Stateless == \A i \in 1..Len(hist) : <<hist[i].lo, hist[i].hi>> = Window(hist[i].f, hist[i].l)
+TruncByOwnColumn == \A i \in 1..Len(hist) : hist[i].trunc = hist[i].c
 ReadOnce == \A f \in F : rd[f] => reads[f] <= 1
 \* an unreadable file is asked for again by every diagnostic (nothing is cached for it)
 Retry == \A f \in F : ~rd[f] => reads[f] = Cardinality({i \in 1..Len(hist) : hist[i].f = f})
